@@ -2144,17 +2144,20 @@ def _emit_block(
             duration_expr = _emit_expr(node.duration_ms)
             times_expr = _emit_expr(node.times)
             lines.append(f"{indent}{{")
+            # the arguments are evaluated once per call (a sensor reading must not be
+            # taken again in every iteration)
+            lines.append(f"{indent}  const auto __redu_wait = {duration_expr};")
             lines.append(f"{indent}  int __redu_times = {times_expr};")
             lines.append(f"{indent}  if (__redu_times < 0) {{ __redu_times = 0; }}")
             lines.append(f"{indent}  for (int __redu_i = 0; __redu_i < __redu_times; ++__redu_i) {{")
             lines.append(f"{indent}    {state_var} = true;")
             lines.append(f"{indent}    {brightness_var} = 255;")
             lines.append(f"{indent}    digitalWrite({pin_code}, HIGH);")
-            lines.append(f"{indent}    delay({duration_expr});")
+            lines.append(f"{indent}    delay(__redu_wait);")
             lines.append(f"{indent}    {state_var} = false;")
             lines.append(f"{indent}    {brightness_var} = 0;")
             lines.append(f"{indent}    digitalWrite({pin_code}, LOW);")
-            lines.append(f"{indent}    delay({duration_expr});")
+            lines.append(f"{indent}    delay(__redu_wait);")
             lines.append(f"{indent}  }}")
             lines.append(f"{indent}  {state_var} = false;")
             lines.append(f"{indent}  {brightness_var} = 0;")
@@ -2172,13 +2175,8 @@ def _emit_block(
             duration_expr = _emit_expr(node.duration_ms)
             steps_expr = _emit_expr(node.steps)
             lines.append(f"{indent}{{")
-            lines.append(f"{indent}  long __redu_duration = {duration_expr};")
-            lines.append(f"{indent}  if (__redu_duration < 0L) {{ __redu_duration = 0L; }}")
-            lines.append(f"{indent}  int __redu_steps = {steps_expr};")
-            lines.append(f"{indent}  if (__redu_steps <= 0) {{ __redu_steps = 1; }}")
-            lines.append(f"{indent}  int __redu_start_red = {red_var};")
-            lines.append(f"{indent}  int __redu_start_green = {green_var};")
-            lines.append(f"{indent}  int __redu_start_blue = {blue_var};")
+            # the arguments are evaluated in the order of the call: red, green, blue,
+            # duration_ms, steps
             lines.append(f"{indent}  int __redu_target_red = {target_red};")
             lines.append(f"{indent}  if (__redu_target_red < 0) {{ __redu_target_red = 0; }}")
             lines.append(f"{indent}  if (__redu_target_red > 255) {{ __redu_target_red = 255; }}")
@@ -2188,6 +2186,13 @@ def _emit_block(
             lines.append(f"{indent}  int __redu_target_blue = {target_blue};")
             lines.append(f"{indent}  if (__redu_target_blue < 0) {{ __redu_target_blue = 0; }}")
             lines.append(f"{indent}  if (__redu_target_blue > 255) {{ __redu_target_blue = 255; }}")
+            lines.append(f"{indent}  long __redu_duration = {duration_expr};")
+            lines.append(f"{indent}  if (__redu_duration < 0L) {{ __redu_duration = 0L; }}")
+            lines.append(f"{indent}  int __redu_steps = {steps_expr};")
+            lines.append(f"{indent}  if (__redu_steps <= 0) {{ __redu_steps = 1; }}")
+            lines.append(f"{indent}  int __redu_start_red = {red_var};")
+            lines.append(f"{indent}  int __redu_start_green = {green_var};")
+            lines.append(f"{indent}  int __redu_start_blue = {blue_var};")
             lines.append(
                 f"{indent}  bool __redu_same = (({red_var} == __redu_target_red) && ({green_var} == __redu_target_green) && ({blue_var} == __redu_target_blue));"
             )
@@ -2263,6 +2268,17 @@ def _emit_block(
             times_expr = _emit_expr(node.times)
             delay_expr = _emit_expr(node.delay_ms)
             lines.append(f"{indent}{{")
+            # the arguments are evaluated in the order of the call: red, green, blue,
+            # times, delay_ms
+            lines.append(f"{indent}  int __redu_target_red = {red_expr};")
+            lines.append(f"{indent}  if (__redu_target_red < 0) {{ __redu_target_red = 0; }}")
+            lines.append(f"{indent}  if (__redu_target_red > 255) {{ __redu_target_red = 255; }}")
+            lines.append(f"{indent}  int __redu_target_green = {green_expr};")
+            lines.append(f"{indent}  if (__redu_target_green < 0) {{ __redu_target_green = 0; }}")
+            lines.append(f"{indent}  if (__redu_target_green > 255) {{ __redu_target_green = 255; }}")
+            lines.append(f"{indent}  int __redu_target_blue = {blue_expr};")
+            lines.append(f"{indent}  if (__redu_target_blue < 0) {{ __redu_target_blue = 0; }}")
+            lines.append(f"{indent}  if (__redu_target_blue > 255) {{ __redu_target_blue = 255; }}")
             lines.append(f"{indent}  int __redu_times = {times_expr};")
             lines.append(f"{indent}  if (__redu_times < 0) {{ __redu_times = 0; }}")
             lines.append(f"{indent}  long __redu_delay = {delay_expr};")
@@ -2275,15 +2291,6 @@ def _emit_block(
             lines.append(f"{indent}  int __redu_original_green = {green_var};")
             lines.append(f"{indent}  int __redu_original_blue = {blue_var};")
             lines.append(f"{indent}  bool __redu_original_state = {state_var};")
-            lines.append(f"{indent}  int __redu_target_red = {red_expr};")
-            lines.append(f"{indent}  if (__redu_target_red < 0) {{ __redu_target_red = 0; }}")
-            lines.append(f"{indent}  if (__redu_target_red > 255) {{ __redu_target_red = 255; }}")
-            lines.append(f"{indent}  int __redu_target_green = {green_expr};")
-            lines.append(f"{indent}  if (__redu_target_green < 0) {{ __redu_target_green = 0; }}")
-            lines.append(f"{indent}  if (__redu_target_green > 255) {{ __redu_target_green = 255; }}")
-            lines.append(f"{indent}  int __redu_target_blue = {blue_expr};")
-            lines.append(f"{indent}  if (__redu_target_blue < 0) {{ __redu_target_blue = 0; }}")
-            lines.append(f"{indent}  if (__redu_target_blue > 255) {{ __redu_target_blue = 255; }}")
             lines.append(f"{indent}  for (int __redu_i = 0; __redu_i < __redu_times; ++__redu_i) {{")
             lines.append(f"{indent}    {red_var} = __redu_target_red;")
             lines.append(f"{indent}    {green_var} = __redu_target_green;")
@@ -2324,6 +2331,7 @@ def _emit_block(
             delay_expr = _emit_expr(node.delay_ms)
             lines.append(f"{indent}{{")
             lines.append(f"{indent}  int __redu_step = {step_expr};")
+            lines.append(f"{indent}  const auto __redu_wait = {delay_expr};")
             lines.append(f"{indent}  if (__redu_step <= 0) {{ __redu_step = 1; }}")
             lines.append(f"{indent}  int __redu_value = {brightness_var};")
             lines.append(f"{indent}  if (__redu_value < 0) {{ __redu_value = 0; }}")
@@ -2332,7 +2340,7 @@ def _emit_block(
             lines.append(f"{indent}    {brightness_var} = __redu_value;")
             lines.append(f"{indent}    {state_var} = {brightness_var} > 0;")
             lines.append(f"{indent}    analogWrite({pin_code}, {brightness_var});")
-            lines.append(f"{indent}    delay({delay_expr});")
+            lines.append(f"{indent}    delay(__redu_wait);")
             lines.append(f"{indent}    __redu_value += __redu_step;")
             lines.append(f"{indent}    if (__redu_value > 255) {{ __redu_value = 255; }}")
             lines.append(f"{indent}  }}")
@@ -2348,6 +2356,7 @@ def _emit_block(
             delay_expr = _emit_expr(node.delay_ms)
             lines.append(f"{indent}{{")
             lines.append(f"{indent}  int __redu_step = {step_expr};")
+            lines.append(f"{indent}  const auto __redu_wait = {delay_expr};")
             lines.append(f"{indent}  if (__redu_step <= 0) {{ __redu_step = 1; }}")
             lines.append(f"{indent}  int __redu_value = {brightness_var};")
             lines.append(f"{indent}  if (__redu_value < 0) {{ __redu_value = 0; }}")
@@ -2356,7 +2365,7 @@ def _emit_block(
             lines.append(f"{indent}    {brightness_var} = __redu_value;")
             lines.append(f"{indent}    {state_var} = {brightness_var} > 0;")
             lines.append(f"{indent}    analogWrite({pin_code}, {brightness_var});")
-            lines.append(f"{indent}    delay({delay_expr});")
+            lines.append(f"{indent}    delay(__redu_wait);")
             lines.append(f"{indent}    __redu_value -= __redu_step;")
             lines.append(f"{indent}    if (__redu_value < 0) {{ __redu_value = 0; }}")
             lines.append(f"{indent}  }}")
@@ -2367,12 +2376,17 @@ def _emit_block(
             continue
 
         if isinstance(node, LedFlashPattern):
+            delay_expr = _emit_expr(node.delay_ms)
             if not node.pattern:
+                # nothing to show, but the delay argument is still evaluated (it may
+                # read a sensor or call a helper)
+                if not isinstance(node.delay_ms, (int, float)):
+                    lines.append(f"{indent}(void)({delay_expr});")
                 continue
             pin_code, state_var, brightness_var = _ensure_led_tracking(node.name)
-            delay_expr = _emit_expr(node.delay_ms)
             pattern_values = ", ".join(str(int(v)) for v in node.pattern)
             lines.append(f"{indent}{{")
+            lines.append(f"{indent}  const auto __redu_wait = {delay_expr};")
             lines.append(f"{indent}  const int __redu_pattern[] = {{{pattern_values}}};")
             lines.append(
                 f"{indent}  const size_t __redu_pattern_len = sizeof(__redu_pattern) / sizeof(__redu_pattern[0]);"
@@ -2394,7 +2408,7 @@ def _emit_block(
             lines.append(f"{indent}      analogWrite({pin_code}, {brightness_var});")
             lines.append(f"{indent}    }}")
             lines.append(f"{indent}    if (__redu_i + 1 < __redu_pattern_len) {{")
-            lines.append(f"{indent}      delay({delay_expr});")
+            lines.append(f"{indent}      delay(__redu_wait);")
             lines.append(f"{indent}    }}")
             lines.append(f"{indent}  }}")
             lines.append(f"{indent}}}")
